@@ -144,7 +144,7 @@ theorem view_eq_of_frame (N : HNFA σ τ) {h h' : Store σ} (hwf : N.WF h) (hf :
 
 /-! ### simulation between the sharing and the copying version -/
 
-theorem lookup_map_val {κ : Type} [DecidableEq κ] (f : Addr → Addr) (d : Dict κ Addr) (k : κ) :
+theorem lookup_map_val {κ : Type} [BEq κ] [LawfulBEq κ] (f : Addr → Addr) (d : Dict κ Addr) (k : κ) :
     (d.map (fun e => (e.1, f e.2))).lookup k = (d.lookup k).map f := by
   induction d with
   | nil => rfl
@@ -155,7 +155,7 @@ theorem lookup_map_val {κ : Type} [DecidableEq κ] (f : Addr → Addr) (d : Dic
     · exact ih
     · rfl
 
-theorem lookup_set {κ ν : Type} [DecidableEq κ] (d : Dict κ ν) (k k' : κ) (v : ν) :
+theorem lookup_set {κ ν : Type} [DecidableEq κ] [BEq κ] [LawfulBEq κ] (d : Dict κ ν) (k k' : κ) (v : ν) :
     (Dict.set d k v).lookup k' = if k' = k then some v else d.lookup k' := by
   induction d with
   | nil =>
@@ -191,6 +191,9 @@ def Sim (f : Addr → Addr) (dS : Dict (σ × τ) Addr) (hS : Store σ) (dC : Di
 
 def SimE (pS pC : Dict (σ × τ) Addr × Store σ) : Prop := ∃ f, Sim f pS.1 pS.2 pC.1 pC.2
 
+theorem SimE.mk' {dS dC : Dict (σ × τ) Addr} {hS hC : Store σ} (f : Addr → Addr)
+    (h : Sim f dS hS dC hC) : SimE (dS, hS) (dC, hC) := ⟨f, h⟩
+
 theorem addInPlace_sim {dS dC : Dict (σ × τ) Addr} {hS hC : Store σ}
     (hs : SimE (dS, hS) (dC, hC)) (k : σ × τ) (t : σ) :
     SimE (addInPlace dS hS k t) (addInPlace dC hC k t) := by
@@ -201,7 +204,7 @@ theorem addInPlace_sim {dS dC : Dict (σ × τ) Addr} {hS hC : Store σ}
   cases hl : dS.lookup k with
   | none =>
     simp only [Option.map_none, Store.alloc]
-    refine ⟨fun x => if x = hS.length then hC.length else f x, ?_, ?_, ?_⟩
+    refine SimE.mk' (fun x => if x = hS.length then hC.length else f x) ⟨?_, ?_, ?_⟩
     · simp only [List.map_append, List.map_cons, List.map_nil, if_true]
       congr 1
       apply List.map_congr_left
@@ -251,7 +254,7 @@ theorem addInPlace_sim {dS dC : Dict (σ × τ) Addr} {hS hC : Store σ}
     have hmem := mem_of_lookup_eq_some hl
     obtain ⟨ha1, ha2, ha3⟩ := hb _ hmem
     simp only at ha1 ha2 ha3
-    refine ⟨f, hmap, ?_, hinj⟩
+    refine SimE.mk' f ⟨rfl, ?_, hinj⟩
     intro e he
     simp only [List.length_set]
     obtain ⟨h1, h2, h3⟩ := hb e he
@@ -297,15 +300,16 @@ theorem copyDelta_aux_sim (h : Store σ) (d pre : Dict (σ × τ) Addr)
           exact (List.nodup_append.mp hnd).1
         rw [List.map_append, List.nodup_append] at hnd'
         exact hnd'.2.2 e'.2 (List.mem_map.mpr ⟨e', he', rfl⟩) e.2 (by simp) heq
-      refine ⟨fun x => if x = e.2 then hA.length else f x, ?_, ?_, ?_⟩
-      · simp only [Store.alloc, List.map_append, List.map_cons, List.map_nil, if_true]
+      simp only [Store.alloc]
+      refine SimE.mk' (fun x => if x = e.2 then hA.length else f x) ⟨?_, ?_, ?_⟩
+      · simp only [List.map_append, List.map_cons, List.map_nil, if_true]
         rw [hmap]
         congr 1
         apply List.map_congr_left
         intro e' he'
         simp only [hfresh e' he', if_false]
       · intro e' he'
-        simp only [Store.alloc, List.length_append, List.length_singleton]
+        simp only [List.length_append, List.length_singleton]
         rcases List.mem_append.mp he' with he' | he'
         · obtain ⟨h1, h2, h3⟩ := hb e' he'
           simp only [hfresh e' he', if_false]
@@ -341,7 +345,8 @@ theorem copyDelta_sim (d : Dict (σ × τ) Addr) (h : Store σ)
     SimE (d, h) (copyDelta d h) := by
   have := copyDelta_aux_sim h d [] (by simpa using hnd) (by simpa using hwf) ([], h) (FrameOK.refl h)
     ⟨id, rfl, fun _ he => by simp at he, fun _ _ he => by simp at he⟩
-  simpa using this
+  rw [List.nil_append] at this
+  exact this
 
 theorem repetition_same_result_noalias (N : HNFA σ τ) (h : Store σ) (q0 : σ) (hwf : N.WF h)
     (hna : (N.delta.map (·.2)).Nodup) :
